@@ -268,6 +268,12 @@ func negotiateServer(ctx context.Context, identity, password string, permissions
 		if err != nil {
 			return 0, nil, err
 		}
+		// Flush here instead of leaving it to the deferred Close, which discards
+		// the error: the peer must have been sent <success/> for the session to
+		// count as authenticated.
+		if err = w.Flush(); err != nil {
+			return 0, nil, err
+		}
 		return Authn, session.Conn(), nil
 	}
 
